@@ -44,6 +44,7 @@ func (core *JApiCore) processInclude(keyword *scanner.Lexeme) *jerr.JApiError {
 	if err := core.scannersStack.Push(core.scanner, keyword.Begin()); err != nil {
 		return japiErrorForLexeme(keyword, err.Error())
 	}
+	core.includeContextDepths = append(core.includeContextDepths, core.explicitContextDepth())
 	core.scanner = scanner.NewJApiScanner(file)
 
 	return nil
